@@ -130,3 +130,8 @@ CASES += [
     {"name": "Foerster tensor allocated in the constructor only (seeded change of round 5)", "kind": "mutant", "rule": "C01-G", "edits": [
         (R + "foerstertensor.py", "        self.data = numpy.zeros((Na,Na,Na,Na),dtype=COMPLEX)\n", "", 1)]},
 ]
+
+CASES += [
+    {"name": "operator count taken from a missing system-bath interaction (the repaired defect)", "kind": "mutant", "rule": "C01-H", "edits": [
+        (R + "redfieldtensor.py", "        Nb = Km.shape[0]\n        \n        RR = numpy.zeros((Na, Na, Na, Na), dtype=numpy.complex128)", "        Nb = self.SystemBathInteraction.N\n        \n        RR = numpy.zeros((Na, Na, Na, Na), dtype=numpy.complex128)", 1)]},
+]
